@@ -347,7 +347,15 @@ pub fn process<I: BufRead, O: Write>(
                     _ => break,
                 }
             } else {
-                let mut s = remaining.split("//").next().unwrap().splitn(2, "/*");
+                // A '//' that comes after the start of a block comment belongs to that comment
+                let code = match (remaining.find("//"), remaining.find("/*")) {
+                    (Some(line_comment), Some(block_comment)) if block_comment < line_comment => {
+                        remaining
+                    }
+                    (Some(line_comment), _) => &remaining[..line_comment],
+                    _ => remaining,
+                };
+                let mut s = code.splitn(2, "/*");
                 // Is there a string start before that point ?
                 let s2 = s.next().unwrap();
                 if !s2.starts_with("#include") && !asm {
